@@ -16,7 +16,7 @@ META = {
              'count / tail wildcard, Consumes, Produces, conditions); the route seen by filters and handler is the selected one. '
              'RouterJSR311: proved for the segment-wise model of the compiled expressions, under the boolean premise that '
              'path_expression.go\'s token classification is the structural reading of the templates (jsr_tokens_agree, evaluated on '
-             'every generated case).',
+             'every generated case). Domain disp (sequential histories and concurrent batches, also under the race detector) ties every route function that ran to the selected route it saw and to admits of its own request.',
         design_ref='DESIGN.md section 6, C01', note=NOTE_ROUTING, technique=TECH),
     'C02': dict(
         text='Theorems Props.C02_curly, C02_jsr, C02_detect, C02_jsr_no_panic (Coq, no axioms): under CurlyRouter AND under '
@@ -140,7 +140,7 @@ META.update({
              'and a fresh recorder only; the one thing that outlives a request (the compressor pool) is left balanced by every '
              'request; the structural answer is the same from any starting state. PARTIAL: concurrency and long histories rest on '
              'the differential run (each request answered identically in a sequential history, alone on a fresh container and in a '
-             'concurrent batch, all equal to the model).',
+             'concurrent batch, all equal to the model). Domains neg and route serve every request a second time with trace logging flipped and demand the same answer.',
         design_ref='DESIGN.md section 6, C19', note=NOTE_DISP, technique=TECH),
 })
 
@@ -188,7 +188,7 @@ META.update({
              'generated_clients_never_block). On the unrepaired tree that theorem failed and the stress run showed goroutines parked '
              'in ReleaseGzipWriter (fixed: F1). Release-exactly-once by the framework is C07_discipline; the ledger of an '
              'instrumenting provider, object identities on sequential histories (vs the channel model) and decoded bodies under '
-             'concurrency are compared on the implementation. PARTIAL: translator and channel / sync.Pool semantics trusted.',
+             'concurrency are compared on the implementation. PARTIAL: translator and channel / sync.Pool semantics trusted. Domain disp adds the provider ledger around encoded and panicking requests (every acquired compressor released exactly once on every exit path).',
         design_ref='DESIGN.md section 6, C13',
         note='trusted: Coq kernel, translator cmd/xlate (fails closed), harness; channel / sync.Pool semantics as written in Model.Pool',
         technique='Coq theorem over translated step programs (regenerated from source each run) + watchdog/ledger stress'),
